@@ -42,12 +42,16 @@ Elem ==
     Payload  |-> [kind |-> "message", parent |-> "", pkg |-> "pkg"],
     Holder   |-> [kind |-> "message", parent |-> "", pkg |-> "opts"],
     any_opt  |-> [kind |-> "extension", parent |-> "", pkg |-> "opts"],
-    WithAny  |-> [kind |-> "message", parent |-> "", pkg |-> "pkg"] ]
+    WithAny  |-> [kind |-> "message", parent |-> "", pkg |-> "pkg"],
+    \* a method whose response type lives in a file that a.proto imports for nothing else
+    Far      |-> [kind |-> "method", parent |-> "Svc", pkg |-> "pkg"],
+    Remote   |-> [kind |-> "message", parent |-> "", pkg |-> "pkg"] ]
 E == DOMAIN Elem
 \* the file that declares each element
 FileOf == [e \in E |-> IF Elem[e].pkg = "opts" THEN "opts.proto"
                        ELSE IF e = "Lonely" THEN "lonely.proto"
-                       ELSE IF e \in {"WithOpt2", "UsesKind", "Payload", "WithAny"} THEN "b.proto" ELSE "a.proto"]
+                       ELSE IF e \in {"WithOpt2", "UsesKind", "Payload", "WithAny"} THEN "b.proto"
+                       ELSE IF e = "Remote" THEN "c.proto" ELSE "a.proto"]
 Packages == {"pkg", "opts"}
 \* fields of messages: <<field name, referenced element or "">>
 Fields ==
@@ -57,10 +61,10 @@ Fields ==
     MapVal |-> {<<"v", "">>}, Ext |-> {}, ExtVal |-> {<<"e", "">>}, WithOpt |-> {<<"w", "">>}, Lonely |-> {<<"l", "">>},
     OptMsg |-> {<<"note", "">>},
     WithOpt2 |-> {<<"w2", "">>}, UsesKind |-> {<<"k", "Kind">>}, Payload |-> {<<"p", "">>},
-    Holder |-> {<<"extra", "">>}, WithAny |-> {<<"a", "">>} ]
+    Holder |-> {<<"extra", "">>}, WithAny |-> {<<"a", "">>}, Remote |-> {<<"r", "">>} ]
 Messages == DOMAIN Fields
 \* methods: input, output
-MethodIO == [Get |-> <<"In", "Out">>, Other |-> <<"Unrelated", "MapVal">>]
+MethodIO == [Get |-> <<"In", "Out">>, Other |-> <<"Unrelated", "MapVal">>, Far |-> <<"In", "Remote">>]
 \* extensions: extendee ("" = a descriptor.proto options message), value type ("" = scalar)
 ExtInfo == [ext_field |-> <<"Ext", "ExtVal">>, msg_opt |-> <<"", "OptMsg">>, field_opt |-> <<"", "">>, any_opt |-> <<"", "Holder">>]
 \* custom options used by elements
